@@ -13,7 +13,7 @@ import (
 )
 
 
-var keys = []string{"z1", "Z1", "str"}
+var keys = []string{"z1", "Z1", "vol", "str"}
 var members = []string{"a", "b", "c", "d", "e", "A", "", "m\r\nn", "f", "g", "h", "i"}
 var scores = []string{"-1", "0", "1", "1", "2", "2.5", "1e10", "-inf", "+inf", "inf", "3", "4", "5", "6", "7", "-2.5", "1.0"}
 
@@ -21,7 +21,7 @@ func key(t *rapid.T) string {
 	if rapid.IntRange(0, 9).Draw(t, "kk") == 0 {
 		return rapid.SampledFrom(keys).Draw(t, "key")
 	}
-	return rapid.SampledFrom(keys[:2]).Draw(t, "zkey")
+	return rapid.SampledFrom(keys[:3]).Draw(t, "zkey")
 }
 func member(t *rapid.T) string { return rapid.SampledFrom(members).Draw(t, "member") }
 func score(t *rapid.T) string {
@@ -92,7 +92,7 @@ func genOp(t *rapid.T, phase int) kit.Cmd {
 func GenProgram(t *rapid.T) prog.Program {
 	p := prog.Program{ShardNum: rapid.SampledFrom([]int{1, 16}).Draw(t, "shards")}
 	if rapid.IntRange(0, 2).Draw(t, "prologue") > 0 {
-		p.Ops = append(p.Ops, kit.MkCmd("SET", "str", "v"))
+		p.Ops = append(p.Ops, kit.MkCmd("SET", "str", "v"), kit.MkCmd("ZADD", "vol", "1", "a"), kit.MkCmd("EXPIRE", "vol", "5000"))
 	}
 	// optional sorted run: forces rotations
 	if rapid.IntRange(0, 2).Draw(t, "run") == 0 {
